@@ -293,6 +293,5 @@ func (jb *JitterBuffer) Clear(resetState bool) {
 		jb.lastSequence = 0
 		jb.state = Buffering
 		jb.stats = Stats{0, 0, 0}
-		jb.minStartCount = 50
 	}
 }
